@@ -44,14 +44,21 @@ def oracleC08 (hist : List Text) (o : ImplObs) : OVerdict :=
             | none => go (k + 1) (some { buf := [], idx := len - 1, dir := .reverse, backup := (cb.line, cb.pos) }) rest
           else go (k + 1) none rest
         | some st =>
-          if isPlainChar key && cb.mode != "vr" && cb.mode != "vc" && (cb.mode != "e" || cb.positive) then
+          -- a vi command-mode key inside a search (Esc glued to a character: "fast command mode")
+          -- may re-issue an earlier command (`.` repeats a typed character or a Backspace, `X` is
+          -- a rubout): what the search text is from here on is not determined by the keys alone,
+          -- so nothing further is judged
+          if cb.mode == "vc" || (cb.mode == "vi" && key.mods == Mods.alt && (match key.code with | .char _ => true | _ => false)) then none
+          else if isPlainChar key && cb.mode != "vr" && cb.mode != "vc" && (cb.mode != "e" || cb.positive) then
             match key.code with
             | .char c =>
               let st := { st with buf := st.buf ++ [c] }
               let (st', v) := doSearch k st cb nl np
               match v with | some w => some w | none => go (k + 1) (some st') rest
             | _ => go (k + 1) (some st) rest
-          else if (key == ⟨.backspace, 0⟩ || key == ⟨.char 'H', 8⟩) && cb.mode != "vc" && (cb.mode != "e" || cb.positive) then
+          else if ((key == ⟨.backspace, 0⟩ || key == ⟨.char 'H', 8⟩) && cb.mode != "vc" && (cb.mode != "e" || cb.positive))
+                  -- with a negative argument C-d (on a non-empty line) and Delete are Kill(BackwardChar) too
+                  || (cb.mode == "e" && !cb.positive && ((key == ⟨.char 'D', 8⟩ && !cb.line.isEmpty) || key == ⟨.delete, 0⟩)) then
             let st := { st with buf := st.buf.dropLast }
             if nl == cb.line then go (k + 1) (some st) rest else some s!"C08:backspace-changed-the-line(cb {k})"
           else if key == ⟨.char 'R', 8⟩ then
